@@ -79,6 +79,33 @@ def f_raise(x, **kw):
     raise Boom(id(x), tuple(sorted(kw.items())))
 
 
+class TwoArgExc(Exception):
+    """cannot be rebuilt by pickle: __init__ needs two arguments, the base class gets one message"""
+    def __init__(self, code, detail):
+        super().__init__('%s: %s' % (code, detail))
+        self.code, self.detail = code, detail
+
+
+class HandleExc(Exception):
+    """carries something that cannot be pickled at all"""
+    def __init__(self, msg):
+        super().__init__(msg)
+        import threading
+        self.handle = threading.Lock()
+
+
+def f_raise_odd(x, **kw):
+    '''doc of f_raise_odd'''
+    if len(kw) % 2:
+        raise TwoArgExc(len(kw), 'detail-%d' % id(x))
+    raise HandleExc('handle-%d' % id(x))
+
+
+def exc_signature(e):
+    d = {k: (v if isinstance(v, (int, str, tuple)) else type(v).__name__) for k, v in vars(e).items()}
+    return (type(e), e.args, str(e), tuple(sorted(d.items())), type(e.__cause__).__name__, type(e.__context__).__name__)
+
+
 def element_cases(ctx):
     from generatorpipeline import pipeline
     rng = ctx.rng
@@ -89,7 +116,7 @@ def element_cases(ctx):
             kw = rng.choice(kwsets)
             nworkers = rng.choice([0, 1, 3])
             skipNone = rng.random() < 0.5
-            f = rng.choice([f_identity, f_raise])
+            f = rng.choice([f_identity, f_raise, f_raise_odd])
             P = pipeline(nworkers, skipNone=skipNone, extracache=rng.choice([0, 2]))(f)
             is_iter = hasattr(type(arg), '__iter__') and hasattr(type(arg), '__next__')   # the ABC rule, stated independently
             case = dict(arg_kind=name, kwargs={k: repr(v) for k, v in kw.items()}, nworkers=nworkers, skipNone=skipNone, func=f.__name__)
@@ -100,12 +127,12 @@ def element_cases(ctx):
             ch0 = len(pipelib.children())
             try:
                 want = ('ok', f(arg, **kw))
-            except Boom as e:
-                want = ('exc', type(e), e.args)
+            except (Boom, TwoArgExc, HandleExc) as e:
+                want = ('exc',) + exc_signature(e)
             try:
                 got = ('ok', P(arg, **kw))
-            except Boom as e:
-                got = ('exc', type(e), e.args)
+            except (Boom, TwoArgExc, HandleExc) as e:
+                got = ('exc',) + exc_signature(e)
             except Exception as e:  # noqa
                 got = ('other-exc', repr(e))
             lines.append('pipe.call ' + ('iterator' if is_iter else 'element'))
